@@ -61,6 +61,7 @@ type counters struct {
 	remoteDepsCycle, remoteDepsExact, remoteDepsNonEmpty, remoteReachesShadowed, unusedDeps, pushDeps    atomic.Int64
 	lookups, retargets, retargetChains, retargetLs, retargetImages, retargetImagePinnedImports           atomic.Int64
 	remoteDepsPlantDemands                                                                               atomic.Int64
+	xCases, xNonDotRoot, xWouldAddDep, xWouldBeAmbiguous, aloneCases                                     atomic.Int64
 }
 
 type checker struct {
@@ -130,13 +131,19 @@ func allKinds(n int, alphabet []Kind) [][]Kind {
 }
 
 func (s Spec) targets() []Target {
+	if s.Alone {
+		// a module without a workspace file: its directory is the input (the parent directory is not a workspace;
+		// a proto-file reference below a v1/v1beta1 buf.yaml that no workspace file controls is opened as a module
+		// of its own directory with the default configuration, so its imports are not relative to the roots)
+		return []Target{{"dir", 0}}
+	}
 	ts := []Target{{Kind: "all"}}
 	for _, i := range s.locals() {
 		if !s.shared() { // in the shared-directory layouts the module directory is the whole workspace
 			ts = append(ts, Target{"dir", i})
 		}
 		ts = append(ts, Target{"file", i}, Target{"path", i})
-		if s.Layout != "roots" { // with two roots the package directory of one root holds only one of the files
+		if !s.twoRoots() { // with two roots the package directory of one root holds only one of the files
 			ts = append(ts, Target{"pathdir", i})
 		}
 	}
@@ -153,7 +160,8 @@ func run(r *evid.Run) {
 	if ck.stopEarly {
 		r.Incomplete("C10_STOP_ON_VIOLATION: remaining work is skipped after the first violation")
 	}
-	r.Rule("one case = (module import digraph, node kinds, v1|v2, plant, target); all digraphs on n nodes x all kind vectors that can exist x both config versions x all targets are run; a case is counted distinct non-trivial when its digraph has an edge or it carries a plant (key = spec/target). Further dimensions: a module that itself provides a well-known-type path and is imported through it alone (every node with an in-edge); three commits of one name pinned by three buf.lock files x every assignment of commits to locks x map-iteration start seeds 0..7; registry faults (faulty provider-served module x fault point) on the plain graphs and on the plants; re-targeting histories (multi-step): the module set of every opened workspace is re-targeted with WithTargetOpaqueIDs onto every non-empty subset of its modules and, two steps deep, onto pairs of them, and every oracle is evaluated again on the result with the reference recomputed for the new targets (key = spec/target/retarget:history)")
+	r.Rule("one case = (module import digraph, node kinds, v1|v2, plant, target); all digraphs on n nodes x all kind vectors that can exist x both config versions x all targets are run; a case is counted distinct non-trivial when its digraph has an edge or it carries a plant (key = spec/target). Further dimensions: a module that itself provides a well-known-type path and is imported through it alone (every node with an in-edge); three commits of one name pinned by three buf.lock files x every assignment of commits to locks x map-iteration start seeds 0..7; registry faults (faulty provider-served module x fault point) on the plain graphs and on the plants; re-targeting histories (multi-step): the module set of every opened workspace is re-targeted with WithTargetOpaqueIDs onto every non-empty subset of its modules and, two steps deep, onto pairs of them, and every oracle is evaluated again on the result with the reference recomputed for the new targets (key = spec/target/retarget:history); excluded directories: every local module has directories its configuration excludes (v1 / v2 excludes, v1beta1 with the default root, with one root other than the module directory, with two roots; also as a module without workspace file) holding files that would add dependencies, a missing import or a duplicate path if they counted, judged against the reference of the same digraph without them")
+	r.Assume("a file in a directory that the module's configuration excludes is not a file of the module: it is not listed, not built, and its imports are neither dependencies nor ambiguities of the workspace")
 	r.Assume("registry commits are self-contained and acyclic (a provider-only module imports only provider modules); kind vectors violating this are filtered and counted")
 	r.Assume("create times of two commits of one name differ (ties are C02's business)")
 	r.Assume("an injected registry fault is an error other than fs.ErrNotExist (download failure, digest mismatch, I/O error of the module's bucket); under a fault an observation must fail or still equal the reference, and must not report an ambiguity (cycle, duplicate path, import not provided) the workspace does not have")
@@ -194,9 +202,10 @@ func run(r *evid.Run) {
 	setMapSeed(0, true)
 	defer setMapSeed(0, false)
 	// cumulative shares of the time budget, from the measured cost of the families in each tier
-	share := map[string]float64{"graphs": 0.40, "layouts": 0.53, "plants": 0.68, "wkt": 0.78, "multi": 0.81, "faults": 0.85, "cli": 1.0}
+	// (fourth round: the layouts family grew by the excluded-directory specs)
+	share := map[string]float64{"graphs": 0.32, "layouts": 0.60, "plants": 0.71, "wkt": 0.79, "multi": 0.82, "faults": 0.85, "cli": 1.0}
 	if !r.Quick() {
-		share = map[string]float64{"graphs": 0.33, "layouts": 0.38, "plants": 0.49, "wkt": 0.72, "multi": 0.83, "faults": 0.85, "cli": 1.0}
+		share = map[string]float64{"graphs": 0.30, "layouts": 0.44, "plants": 0.54, "wkt": 0.74, "multi": 0.83, "faults": 0.85, "cli": 1.0}
 	}
 	families := []struct {
 		name string
@@ -257,6 +266,11 @@ func run(r *evid.Run) {
 	r.Set("retarget_lsfiles_compared", c.retargetLs.Load())
 	r.Set("retarget_images_compared", c.retargetImages.Load())
 	r.Set("retarget_image_imports_of_pinned_modules", c.retargetImagePinnedImports.Load())
+	r.Set("clause_excluded_dir_cases", c.xCases.Load())
+	r.Set("clause_excluded_dir_below_a_root_other_than_dot", c.xNonDotRoot.Load())
+	r.Set("clause_excluded_file_imports_a_module_that_is_no_dependency", c.xWouldAddDep.Load())
+	r.Set("clause_excluded_file_would_be_an_ambiguity", c.xWouldBeAmbiguous.Load())
+	r.Set("clause_module_without_workspace_file", c.aloneCases.Load())
 	r.Set("map_seed_controlled", mapSeedAvailable())
 	neverExercised(r, map[string]int64{
 		"deps exact": c.depsExact.Load(), "isdirect transitive": c.depsWithTransitive.Load(), "cycle": c.cycleDemanded.Load(),
@@ -271,6 +285,9 @@ func run(r *evid.Run) {
 		"remote deps report on a plant": c.remoteDepsPlantDemands.Load(), "unused dep report": c.unusedDeps.Load(), "push dep list": c.pushDeps.Load(),
 		"pinned module lookups": c.lookups.Load(), "re-targeting histories": c.retargets.Load(), "two-step re-targeting histories": c.retargetChains.Load(),
 		"image of a re-targeted set with imports of a pinned module": c.retargetImagePinnedImports.Load(),
+		"excluded directory": c.xCases.Load(), "excluded directory below a root other than the module directory": c.xNonDotRoot.Load(),
+		"excluded file importing a module that is no dependency": c.xWouldAddDep.Load(), "excluded file that would be an ambiguity": c.xWouldBeAmbiguous.Load(),
+		"module without workspace file": c.aloneCases.Load(),
 	})
 }
 
@@ -368,6 +385,9 @@ func (ck *checker) familyLayouts(maxN int) {
 			}
 		}
 	}
+	xspecs := excludedSpecs(maxN, r.Quick())
+	r.Set("excluded_dir_specs", len(xspecs))
+	specs = append(specs, xspecs...)
 	r.Set("layout_specs", len(specs))
 	ctx := context.Background()
 	r.ParallelFor(len(specs), 0, func(idx int) {
@@ -377,6 +397,69 @@ func (ck *checker) familyLayouts(maxN int) {
 		ck.runSpec(ctx, idx, specs[idx])
 		ck.c.layoutSpecs.Add(1)
 	})
+}
+
+// xLayouts are the layouts with an excluded directory in every local module, xContents what it can hold.
+var (
+	xLayouts  = []string{"x1", "x2", "xb", "xb1", "xroots"}
+	xContents = []string{"importer", "missing", "vendored", "all"}
+)
+
+// excludedSpecs (fourth round): every local module has a directory its configuration excludes, and the directory
+// holds files that would change the answer if they counted as files of the module (imports of the other modules,
+// an import nobody provides, a copy of another module's file). Dimensions: digraph x kind vector x configuration
+// form (v1 excludes, v2 excludes, v1beta1 with the default root, with one root other than ".", with two roots) x
+// content of the excluded directory; n = 1 also as a module that stands alone (no buf.work.yaml), there also the
+// plain two-roots layout. The reference is the one of the same digraph without the directory.
+// Quick: n <= 2 every plain kind vector, n = 3 the uniform ones; thorough: every plain vector, and for the v1/v2
+// forms with all three directories also one remote|both node among named ones.
+func excludedSpecs(maxN int, quick bool) []Spec {
+	var specs []Spec
+	for n := 1; n <= maxN; n++ {
+		for _, eg := range enum.Digraphs(n, false) {
+			g := fromEnum(eg)
+			plain := allKinds(n, []Kind{KLocal, KNamed})
+			if n == 3 && quick {
+				plain = [][]Kind{uniformKinds(3, KLocal), uniformKinds(3, KNamed)}
+			}
+			special := append([][]Kind(nil), plain...)
+			if !quick {
+				for at := 0; at < n; at++ {
+					for _, k := range []Kind{KRemote, KBoth} {
+						special = append(special, withKind(n, k, at, KNamed))
+					}
+				}
+			}
+			for _, layout := range xLayouts {
+				for _, content := range xContents {
+					vectors := plain
+					if (layout == "x1" || layout == "x2") && content == "all" {
+						vectors = special
+					}
+					for _, ks := range vectors {
+						for _, alone := range []bool{false, true} {
+							s := newSpec(g, ks, layout == "x2")
+							s.Layout, s.Excluded, s.Alone = layout, content, alone
+							if ok, _ := s.valid(); !ok {
+								continue
+							}
+							specs = append(specs, s)
+						}
+					}
+				}
+			}
+			if n == 1 {
+				for _, ks := range plain {
+					for _, layout := range []string{"", "roots"} {
+						s := newSpec(g, ks, false)
+						s.Layout, s.Alone = layout, true
+						specs = append(specs, s)
+					}
+				}
+			}
+		}
+	}
+	return specs
 }
 
 // kindVectorN4 keeps the n=4 kind vectors with at most one non-plain node.
@@ -440,6 +523,11 @@ func wantImage(r *evid.Run, s Spec, t Target) bool {
 		if s.WKTProv >= 0 {
 			// family W: the workspace target and the proto-file target of the lowest-numbered local module
 			return t.Kind == "all" || (t.Kind == "file" && t.Node == s.locals()[0])
+		}
+		if s.xLayout() {
+			// excluded-directory layouts: the workspace target and (thorough) the proto-file target of the
+			// lowest-numbered local module; every target at n <= 2
+			return t.Kind == "all" || (!r.Quick() && t.Kind == "file" && t.Node == s.locals()[0])
 		}
 		if !r.Quick() {
 			return true
@@ -506,6 +594,31 @@ func (ck *checker) checkCase(ctx context.Context, b *Built, t Target, withImage 
 		ck.c.newestCommit.Add(1)
 		if s.distinctAges() >= 3 {
 			ck.c.threeCommits.Add(1)
+		}
+	}
+
+	if s.Alone {
+		ck.c.aloneCases.Add(1)
+	}
+	if s.xLayout() {
+		ck.c.xCases.Add(1)
+		if s.nonDotRoot() {
+			ck.c.xNonDotRoot.Add(1)
+		}
+		if s.Excluded == "importer" || s.Excluded == "all" {
+			// some local module's excluded file imports a module that the module itself neither imports nor reaches
+			for _, i := range s.locals() {
+				reach := s.G.reach(i)
+				for j := range s.Kinds {
+					if j != i && s.present(j) && !reach[j] {
+						ck.c.xWouldAddDep.Add(1)
+						break
+					}
+				}
+			}
+		}
+		if s.Excluded != "importer" { // a missing import and/or a path in two modules
+			ck.c.xWouldBeAmbiguous.Add(1)
 		}
 	}
 
